@@ -243,6 +243,31 @@ let c03 s b =
              | _ -> Printf.bprintf b " | tv none")
       end
 
+(* ---- C05: interpreter grad-slice evaluation, every node exported ------------------ *)
+let c05 s b =
+  let arena = parse_arena s in
+  let nroots = next s in
+  let roots = times nroots (fun () -> next_nat s) in
+  let nvars = next s in
+  let npts = next s in
+  let pts = times npts (fun () -> Array.of_list (times nvars (fun () ->
+    let v = next_f32 s in let dx = next_f32 s in let dy = next_f32 s in let dz = next_f32 s in
+    { gv = v; gx = dx; gy = dy; gz = dz }))) in
+  let orc = libm_oracle in
+  match flatten arena roots with
+  | Err _ -> Printf.bprintf b "g build"
+  | Ok (t, vars) ->
+    match reg_tape_new (nat_of_int 255) t.t_ops with
+    | Err _ -> Printf.bprintf b "g build"
+    | Ok (rt, _) ->
+      Printf.bprintf b "g";
+      if vars <> [] then
+      List.iter (fun p ->
+        let inputs = List.map (fun v -> p.(int_of_nat v)) vars in
+        let sem = f32_grad_sem orc in
+        let st = eval_tape sem rt inputs (fun _ -> sem.s_dflt) (List.map (fun _ -> sem.s_dflt) roots) in
+        List.iter (fun g -> Printf.bprintf b " %d %d %d %d" (int_of_f32 g.gv) (int_of_f32 g.gx) (int_of_f32 g.gy) (int_of_f32 g.gz)) st.m_out) pts
+
 (* ---- C11: interpreter interval evaluation: value or panic ---------------------- *)
 let c11 s b =
   let arena = parse_arena s in
@@ -331,6 +356,7 @@ let dispatch cmd s b =
   | "c15" -> c15 s b
   | "c03" -> c03 s b
   | "c11" -> c11 s b
+  | "c05" -> c05 s b
   | "bcval" -> cmd_bcval s b
   | "c20" -> c20 s b
   | "c04" -> c04 s b
